@@ -721,10 +721,17 @@ def _probes(model, rep):
     cells = Cells()
 
     class ED:
+        """a cell-to-DOF table; its columns are numbered either like the
+        cells of the mesh or like the cells of the basis (positions in
+        tind, for a basis on a subset of the cells)"""
+        def __init__(self, columns):
+            self.columns = columns
+
         def skv_getitem(self, ix):
             if isinstance(ix, tuple) and len(ix) == 2 and isinstance(
                     ix[1], L):
-                return L([("fn", NB)] + ix[1].dims, "element_dofs")
+                return L([("fn", NB)] + ix[1].dims,
+                         f"element_dofs[{self.columns}]")
             raise Unsupported("element_dofs index")
     cap = {}
 
@@ -775,7 +782,8 @@ def _probes(model, rep):
         "mapping": Obj(None, {"invF": PyFunc(lambda a, k, n: "PTS")}),
         "elem": Obj(None, {"gbasis": PyFunc(gbasis)}),
         "Nbfun": SymInt("Nbfun", 3), "_base_tensor_order": (2,),
-        "element_dofs": ED(),
+        "element_dofs": ED("cells of the basis"),
+        "dofs": Obj(None, {"element_dofs": ED("cells of the mesh")}),
         "N": Poly.sym("N")})
     it = Interp(model, call_hook=hook)
 
@@ -810,6 +818,19 @@ def _probes(model, rep):
        f"{getattr(rows, 'dims', rows)}, cols {getattr(cols, 'dims', cols)} "
        f"are not flattened in one (basis function, component, point) "
        f"order: entries are paired with wrong rows or DOFs", line)
+    # the finder returns cell numbers of the *mesh*: the table they index
+    # must have one column per mesh cell.  AbstractBasis.element_dofs is
+    # restricted to the cells of the basis (dofs.element_dofs[:, tind])
+    _v(rep, R3, isinstance(cols, L) and cols.what ==
+       "element_dofs[cells of the mesh]", "probes:cell-numbering",
+       "the located cells (mesh numbering) index the mesh-wide DOF table",
+       path, "CellBasis.probes",
+       f"the cells returned by the finder are numbered like the cells of "
+       f"the mesh, but they index {getattr(cols, 'what', cols)}: for a "
+       f"basis on a subset of the cells column k of that table belongs to "
+       f"cell tind[k], so the shape functions of the located cell are "
+       f"paired with the DOFs of another cell (or the index is out of "
+       f"range)", line)
     sh = kw.get("shape")
     _v(rep, R3, isinstance(sh, tuple) and len(sh) == 2
        and Poly.coerce(sh[0]) == CP * NP and Poly.coerce(sh[1]) == Poly.sym("N"),
@@ -944,6 +965,11 @@ _WE = "skfem/mesh/mesh_wedge_1.py"
 _CB = "skfem/assembly/basis/cell_basis.py"
 _LN = "skfem/mesh/mesh_line_1.py"
 MUTANTS = [
+    ("probes indexes the DOF table of the basis with mesh cell numbers",
+     ("skfem/assembly/basis/cell_basis.py",
+      "        cols = self.dofs.element_dofs[:, np.tile(cells, comp)]",
+      "        cols = self.element_dofs[:, np.tile(cells, comp)]"),
+     "C14-R3"),
     ("interpolator drops the component axes for points with trailing axes",
      ("skfem/assembly/basis/cell_basis.py",
       "                return out.reshape(self._base_tensor_order + "
